@@ -51,6 +51,14 @@ def lattice_cases(tier):
                     for ins in itertools.product([True, False], repeat=n):
                         out.append({"scope": "pc", "fluid": fluid, "n": n, "remote": remote, "active": list(act),
                                     "ins": list(ins)})
+    # two parallel controllers regulating the same junction (working / stand-by line), every service pattern and table order
+    for fluid in ("water", "lgas"):
+        for order in ((0, 1), (1, 0)):
+            for ins in itertools.product([True, False], repeat=2):
+                for act in itertools.product([True, False], repeat=2):
+                    if not any(i and a for i, a in zip(ins, act)):
+                        continue
+                    out.append({"scope": "pc_parallel", "fluid": fluid, "order": list(order), "ins": list(ins), "active": list(act)})
     # flow controllers
     for fluid in ("water", "lgas"):
         for topo in ("series", "mesh", "reversed", "parallel"):
@@ -125,6 +133,18 @@ def lattice_spec(c):
                      "p_bar": 3.0, "control_active": c["active"][1], "in_service": c["ins"][1], "check_controllability": False},
                     {"op": "pipe", "id": "p2", "from": "j4", "to": "j5", "length_km": 0.2, "d_mm": 50.0},
                     {"op": "sink", "id": "s5", "junction": "j5", "mdot": m * 0.5}]
+        return {"fluid": c["fluid"], "ops": ops}, {}
+    if s == "pc_parallel":
+        gas = c["fluid"] != "water"
+        m = 0.005 if gas else 0.2
+        ops = [{"op": "junction", "id": "j%d" % i, "pn_bar": 6.0, "tfluid_k": 300.0} for i in range(4)]
+        ops += [{"op": "ext_grid", "id": "eg", "junction": "j0", "p_bar": 8.0, "t_k": 300.0},
+                {"op": "pipe", "id": "p0", "from": "j0", "to": "j1", "length_km": 0.1, "d_mm": 60.0}]
+        pcs = [{"op": "press_control", "id": "pc%d" % i, "from": "j1", "to": "j2", "controlled": "j2", "p_bar": [3.0, 2.6][i],
+                "control_active": c["active"][i], "in_service": c["ins"][i], "check_controllability": False} for i in range(2)]
+        ops += [pcs[i] for i in c["order"]]
+        ops += [{"op": "pipe", "id": "p1", "from": "j2", "to": "j3", "length_km": 0.2, "d_mm": 50.0},
+                {"op": "sink", "id": "s3", "junction": "j3", "mdot": m}]
         return {"fluid": c["fluid"], "ops": ops}, {}
     if s == "fc":
         gas = c["fluid"] != "water"
